@@ -196,3 +196,19 @@ package util
 //@   loop 2 invariant $k <= len(noNames) && forall(i, 0, len(specs), has(imports, importPath(specs[i])))
 //@   loop 3 invariant sameOld(imports) && fresh(imports)
 //@   loop 3 invariant forall(i, 0, len(specs), has(imports, importPath(specs[i])))
+
+// ---- marker comments (C11, C03) ------------------------------------------------------------------------------------------------------
+
+//@ func RemoveMatchComments(file, pattern)
+//@   requires pattern != nil && file != nil
+//@   assigns all(ast.CommentGroup.List)
+//@   loop 1 invariant $k <= len(file.Comments)
+//@
+// Non-nil groups and comments after the shifted copy are not decided by the solvers (offset arithmetic defeats
+// the triggers): they are the assumed go/ast type invariants in /verif/lib/types.spec. The contract keeps
+// memory safety under those invariants, the frame and the length change.
+//@ func InsertComment(file, text, pos)
+//@   requires file != nil
+//@   assigns file.Comments, arrays(*ast.CommentGroup), all(ast.CommentGroup.List), arrays(*ast.Comment)
+//@   ensures {C11,C03} len(file.Comments) == old(len(file.Comments)) || len(file.Comments) == old(len(file.Comments)) + 1
+//@   loop 1 invariant $k <= len(file.Comments) && file.Comments == old(file.Comments)
